@@ -494,7 +494,7 @@ func (c *ExecCtx) execSend(st *State, x *ast.SendStmt) {
 		v = Val{c.convert(st, v, ct.Elem()), ct.Elem()}
 	}
 	CL := u.heapGet(st, "C.closed", ArraySort(SInt, SBool))
-	if u.sweep {
+	if c.sweepOn() {
 		key := c.chanKey(st, x.Chan)
 		if st.closed[key] {
 			u.obligeStatic(st, "chan", false, x.Pos(), "send on closed channel "+exprString(x.Chan))
@@ -587,7 +587,7 @@ func (c *ExecCtx) evalRecv(st *State, x *ast.UnaryExpr, commaOk bool) []Val {
 func (c *ExecCtx) closeChan(st *State, ch Val, e ast.Expr, pos token.Pos) {
 	u := c.u
 	key := c.chanKey(st, e)
-	if u.sweep || true {
+	if c.sweepOn() || true {
 		c.nilCheckKind(st, ch.T, pos, "chan", "close of nil channel")
 		if st.closed[key] {
 			u.obligeStatic(st, "once", false, pos, "channel "+exprString(e)+" closed twice on this path")
